@@ -167,7 +167,8 @@ def run(chk):
     chk.extra["twins_finishing_in_same_wakeup"] = twins_same_wake
     chk.extra["outcomes"] = {o: sum(1 for _, r in runs if r["outcome"] == o) for o in set(r["outcome"] for _, r in runs)}
     # binding self-test: a corrupted trace must be rejected with the right clause
-    good = next((to_monitor(sc, res) for sc, res in runs if res["outcome"] == "done" and len(res["trace"]) > 8), None)
+    good = next((to_monitor(sc, res) for k, (sc, res) in enumerate(runs, 1)
+                 if res["outcome"] == "done" and len(res["trace"]) > 8 and verdicts[k][0] == "ok"), None)
     if good:
         import copy
         dup = copy.deepcopy(good)
